@@ -12,6 +12,12 @@ import (
 // TestMain starts the real-time watchdog (outside any bubble), runs the selected checks and
 // writes the evidence counters collected by them.
 func TestMain(m *testing.M) {
+	if os.Getenv("VERIF_CHILD") == "late" {
+		childLateMain()
+
+		return
+	}
+
 	if os.Getenv("VERIF_CHILD") != "" {
 		childMain()
 
